@@ -426,6 +426,7 @@ def fam_par(p, classes=None):
     samples = {}
     blocked = []
     perms = []
+    held_names = []
     while True:
         r, m = S().check(*base, *blocked)
         if r == "unknown":
@@ -461,6 +462,7 @@ def fam_par(p, classes=None):
         obs_d = {k: show(euf.term_of(v)) for k, v in out.items()} if isinstance(out, dict) else repr(out)
         if verdict == "holds":
             holds["names"] += 1
+            held_names.append(pi)
         else:
             wit = dict(family="par", clause="names", p=_pp(p), pi=pi, pi_is_identity=ident, observed=obs_d, calls=rec.counts())
             out_res.append(R("parallel.result-under-own-name", par_cfg_names(p), verdict, wit,
@@ -508,9 +510,9 @@ def fam_par(p, classes=None):
                          what=f"enumerated {len(perms)} permutations, expected {exp_count}"))
     note = f"{len(perms)} completion permutations (pi[0]={p.get('first')}), final 'no other permutation' query unsat"
     nvalid = 0
-    if holds["names"] and classes is None and p.get("twist") is None:
-        # concolic agreement: first and last enumerated permutation on real threads with concrete recording branches
-        for pi in ([perms[0]] if len(perms) == 1 else [perms[0], perms[-1]]):
+    if held_names and classes is None and p.get("twist") is None:
+        # concolic agreement: first and last enumerated permutation (among the holding ones) on real threads with concrete recording branches
+        for pi in ([held_names[0]] if len(held_names) == 1 else [held_names[0], held_names[-1]]):
             rp = replay_par(dict(p=_pp(p), pi=pi, clause="names"), None)
             if rp["reproduced"] or "note" in rp:
                 out_res.append(R("parallel.result-under-own-name", par_cfg_names(p), "mismatch", what=f"symbolic verdict holds for completion order {pi} but the real-thread run says {rp}"))
@@ -522,6 +524,148 @@ def fam_par(p, classes=None):
         out_res.append(R("parallel.aggregator-declared-order", par_cfg_agg(p), "holds",
                          what=note + f"; max_workers={p['workers']} {p['construct']} extras={p['ashape']}; holding permutations: {holds['agg']}",
                          sample=samples.get("agg"), paths=holds["agg"]))
+    return out_res
+
+
+class SymRaiser:
+    """branch stub that raises: ParallelModel documents the entry "Error: <exc>" under the branch's own name"""
+
+    def __init__(self, i, rec):
+        self.i = i
+        self.rec = rec
+
+    def __call__(self, x, *args, **kwargs):
+        self.rec.note(f"g{self.i}")
+        raise RuntimeError(f"boom{self.i}")
+
+
+def parf_cfg(p):
+    return f"ParallelModel n={p['n']} max_workers={p['workers']} construct={p['construct']} extras={p['ashape']} failing-subsets=all"
+
+
+def fam_parf(p, classes=None):
+    """branches that may raise: the solver enumerates every (completion permutation, failing subset) pair
+    (Int permutation variables + one Bool per branch, blocking clauses, closing unsat query). For each pair the
+    real forward runs twice (dict result / order-sensitive aggregator) and z3 decides
+      dict:       every name maps to its own branch's value, a failing branch to the constant "Error: boom<i>",
+                  and the KEY ORDER of the returned dict is the declared branch order;
+      aggregator: input list == [v_0, ..., v_{n-1}] in declared order with v_i the value or the error string."""
+    patch_as_completed(True)
+    n = p["n"]
+    env = euf.Z3Env()
+    q = [z3.Int(f"pi{k}") for k in range(n)]
+    fb = [z3.Bool(f"raises{i}") for i in range(n)]
+    pos = [z3.Int(f"keypos{i}") for i in range(n)]   # observed position of name_i among the keys of the returned dict
+    base = [z3.And(0 <= v, v < n) for v in q] + ([z3.Distinct(*q)] if n > 1 else [])
+    names = par_names(p)
+    x = Tok(var("x"))
+    args, kwargs = sym_extras(p["ashape"])
+    ok_terms = [app(f"g{i}", x, args, kwargs) for i in range(n)]
+    err_terms = [euf.term_of(f"Error: boom{i}") for i in range(n)]
+    zspec = [z3.If(fb[i], env.z(err_terms[i]), env.z(ok_terms[i])) for i in range(n)]   # specification, symbolic in `raises`
+    AGG = env.func("AGG", ["T"] * n, "T")
+    out_res = []
+    holds = {"dict": 0, "agg": 0}
+    samples = {}
+    blocked = []
+    pairs = []
+    held = []
+    while True:
+        r, m = S().check(*base, *blocked)
+        if r == "unknown":
+            return [R("parallel.failing-branch-enumeration", parf_cfg(p), "inconclusive", what="enumeration undecided")]
+        if r == "unsat":
+            break   # closing query: no other (permutation, failing subset) pair
+        pi = [m.eval(v, model_completion=True).as_long() for v in q]
+        fv = [bool(z3.is_true(m.eval(b, model_completion=True))) for b in fb]
+        fails = [i for i in range(n) if fv[i]]
+        pairs.append((tuple(pi), tuple(fails)))
+        blocked.append(z3.Or(*[v != c for v, c in zip(q, pi)], *[b != c for b, c in zip(fb, fv)]))
+        assume = base + [v == c for v, c in zip(q, pi)] + [b == c for b, c in zip(fb, fv)]
+        ident = pi == list(range(n))
+
+        def stages(rec):
+            return [SymRaiser(i, rec) if fv[i] else euf.make_stage(f"g{i}", rec, "plain") for i in range(n)]
+        # ---- dict result ----------------------------------------------------------------------------------
+        rec = euf.Recorder()
+        model = build_par(p, stages(rec), None, classes)
+        _PI["order"] = pi
+        try:
+            out = model(x, *args, **kwargs)
+        except RuntimeError as e:
+            out = f"<forward raised {type(e).__name__}: {e}>"
+        conj = []
+        keys = list(out.keys()) if isinstance(out, dict) else None
+        if keys is None or sorted(keys) != sorted(names):
+            conj.append(z3.BoolVal(False))
+            obs_pos = None
+        else:
+            obs_pos = [keys.index(nm) for nm in names]
+            for i, nm in enumerate(names):
+                conj.append(env.z(euf.term_of(out[nm])) == zspec[i])
+                conj.append(pos[i] == i)                      # declared key order
+            assume_d = [pos[i] == obs_pos[i] for i in range(n)]
+        conj += [z3.IntVal(rec.count(f"g{i}")) == 1 for i in range(n)]
+        prop = twisted(p, z3.And(*conj))
+        verdict, _m = S().decide(assume + (assume_d if obs_pos is not None else []), prop)
+        samples.setdefault("dict", sexpr(z3.And(*assume, z3.Not(prop)), 1200))
+        obs_d = {k: show(euf.term_of(v)) for k, v in out.items()} if isinstance(out, dict) else repr(out)
+        if verdict == "holds":
+            holds["dict"] += 1
+            held.append((tuple(pi), tuple(fails)))
+        else:
+            order_kind = "declared" if keys == names else ("failed-branches-last" if keys == [nm for i, nm in enumerate(names) if not fv[i]] + [names[k] for k in pi if fv[k]] else "other")
+            wit = dict(family="parf", clause="names", key_order=True, p=_pp(p), pi=pi, fails=fails, pi_is_identity=ident, observed=obs_d,
+                       observed_key_order=keys, declared_key_order=names, key_order_kind=order_kind)
+            out_res.append(R("parallel.failing-branch-keeps-name-and-position", parf_cfg(p), verdict, wit,
+                             what=f"failing branches {fails}, completion order {pi}: returned dict {obs_d} (key order {keys}) is not "
+                                  f"{{name_i: value_i or 'Error: boom<i>'}} in declared key order {names}"))
+        # ---- aggregator input ---------------------------------------------------------------------------------------------
+        rec = euf.Recorder()
+        agg = SymAggregator(rec)
+        model = build_par(p, stages(rec), agg, classes)
+        _PI["order"] = pi
+        try:
+            out = model(x, *args, **kwargs)
+        except RuntimeError as e:
+            out = f"<forward raised {type(e).__name__}: {e}>"
+        got = agg.received[0] if agg.received else None
+        if isinstance(out, Tok) and len(agg.received) == 1:
+            prop = z3.And(env.z(out.term) == AGG(*zspec), *[z3.IntVal(rec.count(f"g{i}")) == 1 for i in range(n)])
+        else:
+            prop = z3.BoolVal(False)
+        prop = twisted(p, prop)
+        verdict, _m = S().decide(assume, prop)
+        samples.setdefault("agg", sexpr(z3.And(*assume, z3.Not(prop)), 1200))
+        if verdict == "holds":
+            holds["agg"] += 1
+        else:
+            got_s = [show(euf.term_of(g)) for g in got] if got is not None else None
+            decl = [show(err_terms[i] if fv[i] else ok_terms[i]) for i in range(n)]
+            wit = dict(family="parf", clause="agg", p=_pp(p), pi=pi, fails=fails, pi_is_identity=ident, received=got_s, declared=decl,
+                       aggregator_calls=len(agg.received))
+            out_res.append(R("parallel.failing-branch-aggregator-declared-order", parf_cfg(p), verdict, wit,
+                             what=f"failing branches {fails}, completion order {pi}: aggregator received {got_s} instead of declared order {decl}"))
+    fact = 1
+    for k in range(2, n + 1):
+        fact *= k
+    if len(set(pairs)) != fact * 2 ** n or len(pairs) != len(set(pairs)):
+        out_res.append(R("parallel.failing-branch-enumeration", parf_cfg(p), "inconclusive", what=f"enumerated {len(pairs)} pairs, expected {fact * 2 ** n}"))
+    note = f"{len(pairs)} (completion permutation, failing subset) pairs = {fact} x 2^{n}, closing 'no other pair' query unsat"
+    nvalid = 0
+    if held and classes is None and p.get("twist") is None:
+        # concolic agreement on real threads: first / last enumerated pair among those whose obligation holds
+        for pi, fails in ([held[0]] if len(held) == 1 else [held[0], held[-1]]):
+            rp = replay_par(dict(p=_pp(p), pi=list(pi), fails=list(fails), clause="names", key_order=True), None)
+            if rp["reproduced"] or "note" in rp:
+                out_res.append(R("parallel.failing-branch-keeps-name-and-position", parf_cfg(p), "mismatch",
+                                 what=f"symbolic verdict holds for order {pi} / failing {fails} but the real-thread run says {rp}"))
+            else:
+                nvalid += 1
+    if holds["dict"]:
+        out_res.append(R("parallel.failing-branch-keeps-name-and-position", parf_cfg(p), "holds", what=note, sample=samples.get("dict"), paths=holds["dict"], validated=nvalid))
+    if holds["agg"]:
+        out_res.append(R("parallel.failing-branch-aggregator-declared-order", parf_cfg(p), "holds", what=note, sample=samples.get("agg"), paths=holds["agg"]))
     return out_res
 
 
@@ -563,6 +707,7 @@ def _replay_par_once(w, classes=None, pace=0.02):
     gate = [threading.Event() for _ in range(n)]
     done = [threading.Event() for _ in range(n)]
     state = {"forced": True}
+    fails = set(w.get("fails") or [])   # branches that raise RuntimeError("boom<i>") when they finish
 
     def mk(i):
         def branch(v, *a, **k):
@@ -572,6 +717,8 @@ def _replay_par_once(w, classes=None, pace=0.02):
             log.note(f"g{i}")
             r = herbrand(f"g{i}", v, a, k)
             done[i].set()
+            if i in fails:
+                raise RuntimeError(f"boom{i}")
             return r
         return branch
 
@@ -603,6 +750,8 @@ def _replay_par_once(w, classes=None, pace=0.02):
         th.start()
         try:
             out = model("x", *args, **kwargs)
+        except RuntimeError as e:
+            out = f"<forward raised {type(e).__name__}: {e}>"
         finally:
             th.join(10)
             patch_as_completed(True)
@@ -610,9 +759,12 @@ def _replay_par_once(w, classes=None, pace=0.02):
     else:
         patch_as_completed(True)
         _PI["order"] = pi
-        out = model("x", *args, **kwargs)
+        try:
+            out = model("x", *args, **kwargs)
+        except RuntimeError as e:
+            out = f"<forward raised {type(e).__name__}: {e}>"
         mode = "real thread pool; report order forced at as_completed (order not forcible by blocking with this max_workers; allowed by the documented as_completed contract)"
-    exp = [herbrand(f"g{i}", "x", args, kwargs) for i in range(n)]
+    exp = [f"Error: boom{i}" if i in fails else herbrand(f"g{i}", "x", args, kwargs) for i in range(n)]
     completion = [int(c[1:]) for c in log.calls]
     if real and (not state["forced"] or completion != pi):
         return dict(reproduced=False, mode=mode, note=f"could not force completion order {pi}, observed {completion}")
@@ -620,7 +772,10 @@ def _replay_par_once(w, classes=None, pace=0.02):
         bad = len(received) != 1 or received[0] != exp or out != ("AGG", tuple(exp))
         return dict(reproduced=bool(bad), mode=mode, completion_order=completion, aggregator_received=repr(received[:1])[:500], declared=repr(exp)[:500])
     bad = not isinstance(out, dict) or out != dict(zip(names, exp)) or any(log.count(f"g{i}") != 1 for i in range(n))
-    return dict(reproduced=bool(bad), mode=mode, completion_order=completion, observed=repr(out)[:500], expected=repr(dict(zip(names, exp)))[:500])
+    if w.get("key_order") and isinstance(out, dict):
+        bad = bad or list(out.keys()) != names
+    return dict(reproduced=bool(bad), mode=mode, completion_order=completion, observed=repr(out)[:500], expected=repr(dict(zip(names, exp)))[:500],
+                key_order=list(out.keys()) if isinstance(out, dict) else None, declared_key_order=names)
 
 
 # ================================================================================================
@@ -1416,7 +1571,10 @@ def _par_forward_completion_order(self, input_data, *args, **kwargs):
     with pm.ThreadPoolExecutor(max_workers=self.max_workers) as executor:
         future_to_step = {executor.submit(step_func, input_data, *args, **kwargs): name for name, step_func in self.step_configs}
         for future in pm.as_completed(future_to_step):
-            results[future_to_step[future]] = future.result()
+            try:
+                results[future_to_step[future]] = future.result()
+            except Exception as exc:
+                results[future_to_step[future]] = f"Error: {exc}"
     if self.aggregator:
         return self.aggregator(list(results.values()))
     return results
@@ -1433,6 +1591,45 @@ def _par_forward_name_by_arrival(self, input_data, *args, **kwargs):
             results[self.step_configs[len(results)][0]] = future.result()
     if self.aggregator:
         return self.aggregator([results[name] for name, _ in self.step_configs])
+    return results
+
+
+def _par_forward_failures_last(self, input_data, *args, **kwargs):
+    """failed branches are collected separately and appended AFTER the successful ones (lose their declared position)"""
+    import kaira.models.generic.parallel as pm
+    if not self.step_configs:
+        return {}
+    results, failures = {}, {}
+    with pm.ThreadPoolExecutor(max_workers=self.max_workers) as executor:
+        future_to_step = {executor.submit(step_func, input_data, *args, **kwargs): name for name, step_func in self.step_configs}
+        for future in pm.as_completed(future_to_step):
+            try:
+                results[future_to_step[future]] = future.result()
+            except Exception as exc:
+                failures[future_to_step[future]] = f"Error: {exc}"
+    results = {name: results[name] for name, _ in self.step_configs if name in results}
+    results.update(failures)
+    if self.aggregator:
+        return self.aggregator(list(results.values()))
+    return results
+
+
+def _par_forward_failure_dropped(self, input_data, *args, **kwargs):
+    """a failing branch is silently left out"""
+    import kaira.models.generic.parallel as pm
+    if not self.step_configs:
+        return {}
+    results = {}
+    with pm.ThreadPoolExecutor(max_workers=self.max_workers) as executor:
+        future_to_step = {executor.submit(step_func, input_data, *args, **kwargs): name for name, step_func in self.step_configs}
+        for future in pm.as_completed(future_to_step):
+            try:
+                results[future_to_step[future]] = future.result()
+            except Exception:
+                pass
+    results = {name: results[name] for name, _ in self.step_configs if name in results}
+    if self.aggregator:
+        return self.aggregator(list(results.values()))
     return results
 
 
@@ -1489,6 +1686,12 @@ def mutant_classes(name):
             return dict(ParallelModel=_sub(Par, forward=_par_forward_name_by_arrival))
     if name == "par.kwargs-dropped":
         return dict(ParallelModel=mutate_method(Par, "forward", "executor.submit(step_func, input_data, *args, **kwargs)", "executor.submit(step_func, input_data, *args)"))
+    if name == "parf.failures-appended-last":
+        return dict(ParallelModel=_sub(Par, forward=_par_forward_failures_last))
+    if name == "parf.failure-dropped":
+        return dict(ParallelModel=_sub(Par, forward=_par_forward_failure_dropped))
+    if name == "parf.dict-in-completion-order":
+        return dict(ParallelModel=_sub(Par, forward=_par_forward_completion_order))
     if name == "br.last-match-wins":
         return dict(BranchingModel=_sub(Br, forward=_br_forward_last_match))
     if name == "br.default-ignored":
@@ -1530,6 +1733,9 @@ MUTANTS = [
     ("par.aggregator-completion-order", "par", dict(n=3, workers=None, construct="steps", ashape=2, first=None)),
     ("par.name-by-arrival", "par", dict(n=3, workers=3, construct="branches", ashape=0, first=None)),
     ("par.kwargs-dropped", "par", dict(n=2, workers=1, construct="add_step", ashape=2, first=None)),
+    ("parf.failures-appended-last", "parf", dict(n=3, workers=None, construct="steps", ashape=0)),
+    ("parf.failure-dropped", "parf", dict(n=2, workers=1, construct="branches", ashape=2)),
+    ("parf.dict-in-completion-order", "parf", dict(n=3, workers=2, construct="add_step", ashape=0)),
     ("br.last-match-wins", "br", dict(n=3, conds="threshold_inc", default=True, ret=True, item=False, stage="plain", ashape=0)),
     ("br.default-ignored", "br", dict(n=2, conds="independent", default=True, ret=False, item=True, stage="model", ashape=3)),
     ("br.condition-negated", "br", dict(n=2, conds="independent", default=False, ret=False, item=False, stage="plain", ashape=0)),
@@ -1548,7 +1754,7 @@ MUTANTS = [
 # ================================================================================================
 # work items
 # ================================================================================================
-FAM = {"seq": (fam_seq, replay_seq), "wz": (fam_wz, replay_wz), "par": (fam_par, replay_par), "br": (fam_br, replay_br),
+FAM = {"parf": (fam_parf, replay_par), "seq": (fam_seq, replay_seq), "wz": (fam_wz, replay_wz), "par": (fam_par, replay_par), "br": (fam_br, replay_br),
        "fb": (fam_fb, replay_fb), "mac": (fam_mac, replay_mac), "hist": (fam_hist, replay_hist)}
 
 
@@ -1583,7 +1789,7 @@ def work(item):
                             out.append(ob(r["clause"], r["config"], "error", what="symbolic verdict holds but the concrete run of the real class violates", note=json.dumps(rp, default=str)[:800], **st))
                             continue
                         val += 1
-                    out.append(ob(r["clause"], r["config"], "holds", what=r["what"] if item["family"] in ("par", "br", "hist") else "", sample=r["sample"], paths=r["paths"], validated=val, **st))
+                    out.append(ob(r["clause"], r["config"], "holds", what=r["what"] if item["family"] in ("par", "parf", "br", "hist") else "", sample=r["sample"], paths=r["paths"], validated=val, **st))
                 elif v == "violated":
                     rp = rep(dict(r["witness"], expect_violation=True), None)
                     out.append(ob(r["clause"], r["config"], "violated", what=r["what"], witness=r["witness"], replay=rp, sample=r["sample"], paths=r["paths"], validated=1, **st))
@@ -1651,6 +1857,12 @@ def build_items():
             for c, a in (("branches", 0), ("add_step", 3), ("add_step_named", 1)):
                 for f in firsts:
                     add("par", [dict(n=n, workers=None, construct=c, ashape=a, first=f)])
+    # ---- parallel with failing branches: every failing subset x every completion permutation x worker counts ----
+    for n in range(1, tier(3, 4) + 1):
+        for w in list(range(1, n + 1)) + [None]:
+            add("parf", [dict(n=n, workers=w, construct="steps", ashape=2)])
+        for c, a in (("branches", 0), ("add_step", 3)):
+            add("parf", [dict(n=n, workers=None, construct=c, ashape=a)])
     # ---- branching ----------------------------------------------------------------------------------------
     br = []
     for n in range(1, tier(4, 6) + 1):
@@ -1701,6 +1913,7 @@ def build_items():
         "seq": dict(kind="Sequential", n=4, stage="plain", ashape=2),
         "wz": dict(q=1, s=0, c=1, side="given", ashape=0),
         "par": dict(n=3, workers=2, construct="steps", ashape=0, first=None),
+        "parf": dict(n=2, workers=None, construct="steps", ashape=0),
         "br": dict(n=3, conds="independent", default=True, ret=False, item=False, stage="plain", ashape=0),
         "fb": dict(T=3, ashape=1),
         "mac": dict(n=3, enc="list", dec="list", ashape=0),
@@ -1708,7 +1921,7 @@ def build_items():
     }
     for famname, p in twins.items():
         add(famname, [dict(p, twist="false")], mode="twin")
-        if famname != "wz":
+        if famname not in ("wz", "parf"):
             add(famname, [dict(p, twist="wrong")], mode="twin")
     # ---- mutants ---------------------------------------------------------------------------------------------------
     for name, famname, p in MUTANTS:
@@ -1737,6 +1950,7 @@ def main():
                 rc["MultipleAccessChannelModel"].forward)
     chk.bound("pipeline stages", f"0..{tier(6, 8)} (x stage kind plain/nn.Module x 4 shapes of forwarded extras x 4 construction paths); DeepJSCC 4 and ChannelCode 6 fixed roles; Wyner-Ziv 2^3 optional-stage subsets x side information given/generated")
     chk.bound("parallel branches", f"1..{tier(4, 6)}; every one of the n! completion permutations (solver-enumerated, closed by an unsat 'no other permutation' query) x max_workers 1..n and default (n=6: 1,3,6,default) x 4 construction paths")
+    chk.bound("parallel failing branches", f"1..{tier(3, 4)} branches x EVERY subset of raising branches x every completion permutation (pairs solver-enumerated, closed by an unsat query) x max_workers 1..n and default x 3 construction paths; obligations: entry 'Error: <exc>' under the branch's own name, returned dict key order and aggregator input in declared order")
     chk.bound("branching", f"1..{tier(4, 6)} branches x condition structures independent / nested thresholds (increasing, decreasing) / duplicated predicate / complementary predicates x default present/absent x return_branch x tensor-like (.item()) or plain conditions; binary constructor with/without explicit branches")
     chk.bound("feedback iterations", f"0..{tier(5, 8)} x 4 shapes of forwarded extras")
     chk.bound("multiple access users", f"1..{tier(4, 6)} x encoders shared/list/class/list-with-repeated-instance x decoders shared/[joint]/list/class x 2 shapes of extras")
@@ -1745,7 +1959,7 @@ def main():
     chk.stub("stages / branch models / encoders / decoders / channels / constraints / conditions / aggregator -> uninterpreted functions and predicates over a token (Real sort), indexed by arity and keyword names; every stub counts its calls")
     chk.stub("tensor-typed tokens (torch.Tensor subclass): torch.stack+torch.sum(dim=0) -> real addition of the tokens, torch.cat(dim=1) -> uninterpreted order-sensitive CAT; any other tensor operation raises NotEncodable")
     chk.assume("superposition is modelled as exact real addition (commutative, associative); floating-point rounding of the sum order is outside the claim")
-    chk.assume("stages are total and side-effect free except for the call counter; stages that raise (ParallelModel stores 'Error: ...' strings) and duplicate branch names are outside the claim")
+    chk.assume("stages are total and side-effect free except for the call counter; raising stages are covered for ParallelModel only (RuntimeError -> documented 'Error: <exc>' entry); duplicate branch names are outside the claim")
     chk.assume("declared order of ChannelCodeModel = order of its public `steps` list (encoder, modulator, constraint, channel, demodulator, decoder); the class docstring words the workflow as constraint-before-modulator")
     chk.assume("remove_step index validity is 0 <= i < len (negative indices are rejected by the classes and by the list model alike)")
     items = build_items()
